@@ -1,7 +1,7 @@
 (* ===== C09 : reusing a spec on incompatible data fails loudly and never reshapes columns ===== *)
 From Coq Require Import List NArith ZArith QArith Qcanon Bool Arith.
 Import ListNotations.
-Require Import Mat Mat2 ReplayLaws.
+Require Import Mat Mat2 ReplayLaws WarnLaws.
 Open Scope nat_scope.
 
 (* a factor whose kind (categorical / numerical) differs from the recorded kind: an encoding error, never a matrix *)
@@ -36,6 +36,13 @@ Example C09_example :
   replay sp [([65]%N, CNum [Some (Q2Qc 1)])] 1 [] = inr RKind.
 Proof. vm_compute. reflexivity. Qed.
 
+(* unseen levels are announced: the data-mismatch warning is issued exactly when some value of a factor that was categorical at fit time is not
+   among that factor's recorded levels (and, by C09_unseen_levels_no_reshape, the columns stay as recorded either way) *)
+Theorem C09_unseen_levels_are_announced : forall sp d, warns sp d = true <->
+  exists e lvs v dl s, In (e, KCat lvs) (sp_enc sp) /\ lookup d e = Some (CCat v dl) /\ In (Some s) v /\ ~ In s lvs.
+Proof. exact warns_iff. Qed.
+
+Print Assumptions C09_unseen_levels_are_announced.
 Print Assumptions C09_kind_change_is_error.
 Print Assumptions C09_kind_error_only_for_kind_change.
 Print Assumptions C09_absent_levels_zero_columns.
